@@ -166,6 +166,11 @@ func c03Tables(run *PropRun) {
 		g := run.AddObligation(fmt.Sprintf("keytable[%s]/prefix-free", te.Name), "table", BoolT(bad == ""), "no key sequence of the table built by prepareKeys is a proper prefix of another "+bad)
 		g.ReplayGo = replayKeyTable(te.Name, `for a := range s.keycodes { for b := range s.keycodes { if a != b && len(a) < len(b) && strings.HasPrefix(b, a) { fail("%q is a proper prefix of %q", a, b); return } } }`)
 		nOb++
+		// (1b) no empty sequence, no nil entry: the precondition of parseFunctionKey / the input driver (C02)
+		_, hasEmpty := tab[""]
+		g2 := run.AddObligation(fmt.Sprintf("keytable[%s]/nonempty-keys", te.Name), "table", BoolT(!hasEmpty), "the table built by prepareKeys has no empty key sequence (precondition of parseFunctionKey: a match consumes at least one byte)")
+		g2.ReplayGo = replayKeyTable(te.Name, `for a, k := range s.keycodes { if a == "" || k == nil { fail("empty sequence or nil entry in the key table"); return } }`)
+		nOb++
 		// (2) every key capability of the description is in the table with a key the description assigns to it
 		for i := 0; i < db.TI.NumFields(); i++ {
 			fname := db.TI.Field(i).Name()
